@@ -14,6 +14,8 @@ every guard (so the theorem's hypothesis is observed to hold of what go-journal 
 harness builds crash images from the same trace, lets the REAL server recover, and compares the
 recovered tree with the reference states after each prefix of operations.
 -/
+import GoNfsd.Lemmas.ObjLog
+import GoNfsd.Gen.Skeleton
 import GoNfsd.Lemmas.WalCrash
 import GoNfsd.Lemmas.MemLog
 
@@ -167,5 +169,40 @@ theorem crash_recovers_whole_transactions (base : Nat → α) (m0 : MemLog α) (
   obtain ⟨_, _, b3, _, _⟩ := runEv_facts (runEv m0 (es1 ++ [Ev.flush])) es2 hok1
   rw [spec_at_flush_point base _ d _ (by unfold MemLog.ok at hok1; omega) x]
   exact g2 base x
+
+/-! ### what a stable acknowledgement may rely on (model M9c of `obj.Log`, the layer that remembers a log position)
+
+Found on the unchanged tree (fix 0fea8f5): COMMIT called `Txn.Flush()`, which flushes up to the
+position `obj.Log` remembers from the last `doCommit` — also from one the log REFUSED, and then the
+position is 0. -/
+section objlog
+open GoNfsd.Model.ObjLog
+
+/-- The dependency as it is: a `Flush()` right after a refused transaction makes nothing durable —
+    whatever had been acknowledged as unstable before it stays in memory.  (The concrete history:
+    one unstable commit, one refused commit, `Flush()`: one transaction appended, none durable.) -/
+theorem flush_forgets_after_a_refusal (s : OL) (w : Bool) :
+    (step (step s (.commit false w)) .flush).durable = s.durable ∧
+    (run {} [.commit true false, .commit false false, .flush]).durable <
+      (run {} [.commit true false, .commit false false, .flush]).next :=
+  ⟨flush_after_refusal_noop s w, by decide⟩
+
+/-- What every stable operation does, and `CommitFh` too since 0fea8f5: `CommitWait(true)` of a
+    non-empty transaction, which flushes up to ITS OWN position.  In every state the log can be in — whatever was committed,
+    refused, flushed or written by the logger before — everything appended so far is durable
+    afterwards, and stays so. -/
+theorem stable_commit_is_durable_whatever_was_remembered (es es' : List Ev) :
+    let t := step (run {} es) (.commit true true)
+    t.durable = t.next ∧ t.next ≤ (run t es').durable := by
+  have hi : Inv (run {} es) := run_inv es {} ⟨Nat.le_refl _, Nat.le_refl _⟩
+  have h1 := stable_commit_all_durable (run {} es) hi
+  exact ⟨h1, by rw [← h1]; exact run_durable_mono es' _⟩
+
+/-- ... and no function of /repo's transaction layer calls `Flush()` any more (the list is
+    regenerated from fstxn/*.go on every run; a caller reappearing — the seeded change C01i puts
+    one into every stable commit — is named by the check). -/
+theorem nobody_relies_on_the_remembered_position : GoNfsd.Gen.Skeleton.flushCallers = [] := by decide
+
+end objlog
 
 end GoNfsd.Props.C01
